@@ -520,7 +520,7 @@ def paramActuals (rows : List Row) (fn : Fn) (p : Param) : List Actual :=
 
 /-- does the parameter appear in the Fortran argument list -/
 def Param.visible (fn : Fn) (p : Param) : Bool :=
-  p.isFArg fn && (p.ftrim || p.assumedType || p.funPtr || (p.implied == 0 && !p.hidden))
+  p.isFArg fn && (p.ftrim || p.assumedType || p.funPtr || (p.implied != 1 && p.implied != 2 && !p.hidden))
 
 /-- the statement blocks one parameter looks up (none on the early `continue` branches) -/
 def paramMatched (rows : List Row) (fn : Fn) (p : Param) : List (List Nat × List Nat) :=
